@@ -12,7 +12,7 @@ Init == C!Init /\ node = 0 /\ pfail = {} /\ drift = FALSE
 SetOf(s) == {s[k] : k \in 1..Len(s)}
 RegOf(r) == [n \in Tools |-> IF r.post.unreg[n] THEN NotReg ELSE SetOf(r.post.reg[n])]
 DAct(a) == CASE a.op = "register"   -> C!Register(a.n, SetOf(a.req))
-             [] a.op = "metabolize" -> C!Metabolize(a.n, a.mode)
+             [] a.op = "metabolize" -> IF a.mode = "nested" THEN C!MetabolizeNested(a.n, a.n2) ELSE C!Metabolize(a.n, a.mode)
              [] a.op = "tool_call"  -> C!ToolCall(a.n)
              [] a.op = "tool_loop"  -> C!ToolLoop(a.n, a.n2)
              [] a.op = "repair"     -> C!Repair
